@@ -161,4 +161,62 @@ theorem DConds_length (names : List String) : ∀ (ts : List LTok) (cs : List (P
   intro ts cs h
   cases h <;> simp
 
+/-- a run of NEWLINE tokens -/
+def NLs (nl : List LTok) : Prop := ∀ t ∈ nl, t = LTok.newline
+
+/-- the documented shape of one `conditionals` block: keyword, line end, name, `{`, the conditionals (or none), `}`,
+with optional line ends between the parts -/
+inductive DBlock (names : List String) : List LTok → String → List (PF × PF) → Prop
+  | empty {n0 n1 n2 n3 : List LTok} {name : String} : NLs n0 → NLs n1 → NLs n2 → NLs n3 →
+      DBlock names (n0 ++ .kwConditionals :: .newline :: (n1 ++ .id name :: (n2 ++ .lbrace :: (n3 ++ [.rbrace])))) name []
+  | conds {n0 n1 n2 n3 n4 consumed : List LTok} {name : String} {cs : List (PF × PF)} :
+      NLs n0 → NLs n1 → NLs n2 → NLs n3 → NLs n4 → DConds names consumed cs →
+      DBlock names (n0 ++ .kwConditionals :: .newline :: (n1 ++ .id name :: (n2 ++ .lbrace :: (n3 ++ (consumed ++ (n4 ++ [.rbrace])))))) name cs
+
+/-- **rule `conditionals` (one block), soundness**: an accepted block has the documented shape, its name and its conditionals
+in file order; the remaining input is what follows the closing brace (after optional line ends) -/
+theorem C10_block_sound (names : List String) (ts : List LTok) (name : String) (cs : List (PF × PF)) (rest : List LTok)
+    (h : parseBlock names ts = some ((name, cs), rest)) :
+    ∃ consumed nl, DBlock names consumed name cs ∧ NLs nl ∧ ts = consumed ++ (nl ++ rest) := by
+  unfold parseBlock at h
+  obtain ⟨n0, hn0, e0⟩ := skipNL_spec ts
+  split at h
+  · rename_i r hs0
+    obtain ⟨n1, hn1, e1⟩ := skipNL_spec r
+    split at h
+    · rename_i nm r1 hs1
+      obtain ⟨n2, hn2, e2⟩ := skipNL_spec r1
+      split at h
+      · rename_i r2 hs2
+        obtain ⟨n3, hn3, e3⟩ := skipNL_spec r2
+        split at h
+        · rename_i r3 hs3
+          simp only [Option.some.injEq, Prod.mk.injEq] at h
+          obtain ⟨⟨rfl, rfl⟩, rfl⟩ := h
+          obtain ⟨n5, hn5, e5⟩ := skipNL_spec r3
+          refine ⟨_, n5, DBlock.empty (name := nm) hn0 hn1 hn2 hn3, hn5, ?_⟩
+          rw [e0, hs0, e1, hs1, e2, hs2, e3, hs3]
+          conv => lhs; rw [e5]
+          simp [List.append_assoc]
+        · rename_i r3 hne
+          cases hc : parseConditions names ((skipNL r2).length + 1) (skipNL r2) with
+          | none => rw [hc] at h; simp at h
+          | some p =>
+            obtain ⟨cs', r4'⟩ := p
+            rw [hc] at h
+            cases r4' with
+            | nil => simp at h
+            | cons t r4 =>
+              cases t <;> simp only [Option.some.injEq, Prod.mk.injEq, reduceCtorEq] at h
+              obtain ⟨⟨rfl, rfl⟩, rfl⟩ := h
+              obtain ⟨consumed, n4, hd, hn4, e4⟩ := C10_conditions_sound names _ _ _ _ hc
+              obtain ⟨n5, hn5, e5⟩ := skipNL_spec r4
+              refine ⟨_, n5, DBlock.conds (name := nm) hn0 hn1 hn2 hn3 hn4 hd, hn5, ?_⟩
+              rw [e0, hs0, e1, hs1, e2, hs2, e3, e4]
+              conv => lhs; rw [e5]
+              simp [List.append_assoc]
+      · cases h
+    · cases h
+  · cases h
+
 end InfOCF
